@@ -337,6 +337,7 @@ fn run_chunk(w: &mut Worker, chunk: &[Sh], base: usize, thorough: bool) {
         let mut ctx = Context::default();
         let mut jobs = vec![];
         for (i, sh) in sub.iter().enumerate() {
+            crate::panics::set_context(format!("C01 shape {}", sh.show()));
             native_phase(&mut w.rep, &mut ctx, sh, base + sci * 100 + i, &mut jobs);
         }
         // phase B: stage 1, abstract miters, pipelined
